@@ -315,6 +315,10 @@ pub fn run_scenario(job: &Value) -> Value {
                 });
             }
         }
+        crate::locks::set_slow(job.get("slow").and_then(|x| x.as_array()).map(|a| {
+            (a.first().and_then(|x| x.as_str()).unwrap_or("").to_string(), a.get(1).and_then(|x| x.as_str()).unwrap_or("").to_string(),
+             a.get(2).and_then(|x| x.as_u64()).unwrap_or(0))
+        }));
         crate::locks::begin(points);
     }
     let empty = Vec::new();
@@ -535,6 +539,7 @@ pub fn run_scenario(job: &Value) -> Value {
     }
     let lock_report = if with_locks {
         let mut v = crate::locks::end();
+        crate::locks::set_slow(None);
         v["names"] = Value::Object(lock_names);
         v
     } else {
